@@ -118,7 +118,8 @@ Theorem parse_line_arity line i : parse_line line = Ok (Some i) -> arity_def i =
 Proof.
   unfold parse_line. destruct (strip line =? ""); [discriminate|].
   unfold bind. destruct (tokenize line) as [fields0|e]; [|discriminate].
-  set (fields := if starts_with "//" (last fields0 "") then but_last fields0 else fields0). clearbody fields.
+  set (fields := if starts_with "//" (last fields0 "") && negb (in_b64 (last (but_last fields0) "") "")
+                 then but_last fields0 else fields0). clearbody fields.
   destruct fields as [|f0 rest]; [discriminate|].
   destruct (match last_char f0 with Some c => Ascii.eqb c ":"%char | None => false end).
   { destruct rest; [|discriminate]. intros H. inversion H; subst. vm_compute. reflexivity. }
